@@ -6,7 +6,8 @@ HERE = os.path.dirname(os.path.dirname(os.path.abspath(__file__)))
 props = {json.loads(l)['id']: json.loads(l) for l in open(os.path.join(HERE, 'properties.jsonl'))}
 rows = []
 head = subprocess.run(['git', '-C', '/repo', 'rev-parse', '--short', 'HEAD'], capture_output=True, text=True).stdout.strip()
-for rnd, root in enumerate(sys.argv[1:], start=1):
+for root in sys.argv[1:]:
+    rnd = os.path.basename(os.path.normpath(root)).lstrip('r') or '0'
     for pid in sorted(os.listdir(root)):
         d0 = os.path.join(root, pid)
         if not re.fullmatch(r'C\d\d', pid) or not os.path.isdir(d0):
@@ -22,9 +23,14 @@ for rnd, root in enumerate(sys.argv[1:], start=1):
                 continue
             caught = []
             ran = []
+            clean = []
             cpath = os.path.join(d, 'caught.txt')
             if os.path.exists(cpath):
                 for line in open(cpath):
+                    cr = re.match(r'clean_replay (\S+) exit=(\d+)', line.strip())
+                    if cr:
+                        clean.append({'replay': cr.group(1), 'reproduces_on_unchanged_tree': cr.group(2) != '0'})
+                        continue
                     mm = re.match(r'(C\d\d) exit=(\d+) evaluations=(\d*) rules=(.*)', line.strip())
                     if mm:
                         ran.append({'check': mm.group(1), 'tier': 'quick', 'exit': int(mm.group(2)), 'evaluations_until_stop': int(mm.group(3) or 0), 'rules': [r for r in mm.group(4).split(',') if r]})
@@ -43,7 +49,7 @@ for rnd, root in enumerate(sys.argv[1:], start=1):
                 'breaks_property': pid,
                 'property_title': props[pid]['title'],
                 'summary': first,
-                'needs_to_manifest': 'see notes.md (written by the sub-agent that produced the change, which saw only the property text)',
+                'needs_to_manifest': ' '.join(l.strip() for l in notes.splitlines()[1:] if l.strip())[:900] + ' (full text: notes.md, written by the sub-agent that produced the change, which saw only the property text)',
                 'applies_to_repo_commit': head,
                 'confirmed': {
                     'how': 'tools/confirm_mutant.sh in a scratch worktree: demo alone passes, demo + patch fails, pinned suite with the patch alone',
@@ -51,6 +57,7 @@ for rnd, root in enumerate(sys.argv[1:], start=1):
                 },
                 'checks_run': {'how': 'tools/sweep_mutants.sh: git -C /repo apply patch.diff; ./check <id> quick; git -C /repo checkout -- .', 'results': ran},
                 'caught_by': caught,
+                'minimised_replays_on_unchanged_tree': clean,
             }
             json.dump(meta, open(os.path.join(out, 'meta.json'), 'w'), indent=1)
             rows.append((sid, first[:110], ', '.join(f"{r['check']} ({'/'.join(r['rules'][:2])})" for r in ran if r['exit'] == 1) or '**not caught**', ', '.join(r['check'] for r in ran if r['exit'] == 0)))
